@@ -229,8 +229,15 @@ fn produce_image_from_entry(entry: &Entry) -> Result<image::RgbaImage, String> {
 
     let offset_x = entry.specs.offset_x;
     let offset_y = entry.specs.offset_y;
-    let output_width = content_width + offset_x;
-    let output_height = content_height + offset_y;
+    // The offsets come straight from the entry header.  The padded image needs `4 * width * height` bytes.
+    const MAX_OUTPUT_PIXELS: u64 = 1 << 26;
+    let (output_width, output_height) = match (content_width.checked_add(offset_x), content_height.checked_add(offset_y)) {
+        (Some(w), Some(h)) if w as u64 * h as u64 <= MAX_OUTPUT_PIXELS => (w, h),
+        _ => return Err(format!(
+            "a {}x{} texture at offset ({}, {}) makes an unreasonably large image",
+            content_width, content_height, offset_x, offset_y,
+        )),
+    };
     let output_init_argb = vec![0xFF; 4 * output_width as usize * output_height as usize];
     let mut output = BgraImage::from_raw(output_width, output_height, output_init_argb).expect("size error?!");
 
